@@ -13,6 +13,7 @@ import (
 	"encoding/base64"
 	"encoding/pem"
 	"fmt"
+	"strings"
 	"sync"
 	"testing"
 	"time"
@@ -67,6 +68,22 @@ var c18Name = pbt.Register(pbt.Prop[C18Name]{
 		if [16]byte(got) != want {
 			return pbt.V("c18.uuid", "offline UUID equals Java's nameUUIDFromBytes of OfflinePlayer:+name", "NameToUUID(%q)=%x, want %x", clipS(string(c.Name)), got[:], want[:])
 		}
+		// names that differ from this one only in letter case are OTHER names (Java hashes the bytes): each gets its
+		// own UUID, whatever was looked up before, and this name's UUID is the same afterwards
+		for _, variant := range []string{strings.ToUpper(string(c.Name)), strings.ToLower(string(c.Name)), swapCase(string(c.Name))} {
+			if variant == string(c.Name) {
+				continue
+			}
+			g := offline.NameToUUID(variant)
+			if w := java.NameUUID([]byte("OfflinePlayer:" + variant)); [16]byte(g) != w {
+				return pbt.V("c18.uuid.casevariant", "for every player name the offline UUID equals Java's (names differing in case are different names)",
+					"after NameToUUID(%q): NameToUUID(%q)=%x, want %x", clipS(string(c.Name)), clipS(variant), g[:], w[:])
+			}
+			if again := offline.NameToUUID(string(c.Name)); [16]byte(again) != want {
+				return pbt.V("c18.uuid.casevariant", "for every player name the offline UUID equals Java's (names differing in case are different names)",
+					"after NameToUUID(%q): NameToUUID(%q)=%x, want %x", clipS(variant), clipS(string(c.Name)), again[:], want[:])
+			}
+		}
 		if c.Between > 0 {
 			for i := 0; i < c.Between; i++ {
 				other := fmt.Sprintf("P%08x_%d", c.Salt, i)
@@ -90,6 +107,19 @@ var c18Name = pbt.Register(pbt.Prop[C18Name]{
 })
 
 func TestC18Name(t *testing.T) { pbt.Run(t, c18Name) }
+
+func swapCase(s string) string {
+	b := []byte(s)
+	for i, ch := range b {
+		switch {
+		case ch >= 'a' && ch <= 'z':
+			b[i] = ch - 32
+		case ch >= 'A' && ch <= 'Z':
+			b[i] = ch + 32
+		}
+	}
+	return string(b)
+}
 
 // ---- session digest ---------------------------------------------------------------------------------
 
